@@ -1695,7 +1695,9 @@ mod expression_parser {
     }
     expressions.truncate(MAX_STRUCT_SIZE);
     if expressions.len() == 1 {
-      return expressions.pop().unwrap();
+      // `(e,)` is unwrapped like `(e)`: the comments written after `(` and before `)` stay with `e`.
+      let inner = expressions.pop().unwrap();
+      return super::utils::keep_parenthesis_comments(parser, inner, start_comments, end_comments);
     }
     expr::E::Tuple(
       expr::ExpressionCommon { loc, associated_comments: NO_COMMENT_REFERENCE, type_: () },
